@@ -72,6 +72,9 @@ type Config struct {
 	// Passwords: expected secure-login passwords per address (C16).
 	Passwords map[string]string `json:"passwords,omitempty"`
 	Mut       []Mutation        `json:"mut,omitempty"`
+	// StaleChecksum: in Byzantine mode compute F> over the undamaged proposal
+	// lines (the Session then refuses the block at the checksum).
+	StaleChecksum bool `json:"stale_checksum,omitempty"`
 	// Byzantine: do not validate, never wait longer than ReadTimeout for the
 	// Session, close when stuck.
 	Byzantine   bool          `json:"byzantine,omitempty"`
@@ -126,6 +129,7 @@ type peer struct {
 	gone        map[string]bool // resolved or deferred MIDs
 	awaiting    []string
 	inHandshake bool
+	lastEmitted []byte // what the last emit really wrote (after mutations)
 }
 
 var errStop = errors.New("peer stopped")
@@ -161,6 +165,7 @@ func (p *peer) find(clause, detail, f string, a ...any) {
 
 // emit writes one unit of output, applying Byzantine mutations.
 func (p *peer) emit(kind string, b []byte) error {
+	p.lastEmitted = nil
 	n := p.emits[kind]
 	p.emits[kind]++
 	outs := [][]byte{b}
@@ -230,6 +235,7 @@ func (p *peer) emit(kind string, b []byte) error {
 		if len(o) == 0 {
 			continue
 		}
+		p.lastEmitted = append(p.lastEmitted, o...)
 		w, err := p.conn.Write(o)
 		p.wrote += w
 		if err != nil {
@@ -570,9 +576,17 @@ func (p *peer) myTurn(remoteNoMsgs bool) (quit, sentBlock bool, err error) {
 	for i, m := range block {
 		streams[i] = p.stream(m)
 		l := fmt.Sprintf("FC EM %s %d %d 0", m.MID, len(m.Raw), len(streams[i]))
-		lines = append(lines, l)
 		if err = p.line("proposal", l); err != nil {
 			return
+		}
+		if p.cfg.Byzantine && !p.cfg.StaleChecksum {
+			// a hostile peer computes the block checksum over what it really
+			// sent, so that damaged proposal lines get past the checksum test
+			for _, el := range strings.Split(strings.TrimSuffix(string(p.lastEmitted), "\r"), "\r") {
+				lines = append(lines, el)
+			}
+		} else {
+			lines = append(lines, l)
 		}
 		if i == 0 {
 			if err = p.comment("between-proposals"); err != nil {
